@@ -629,16 +629,16 @@ pub fn spec() -> PropSpec {
         subs: vec![
             Box::new(Sub {
                 name: "hook",
-                cases_quick: 40_000,
-                cases_thorough: 3_000_000,
+                cases_quick: 150_000,
+                cases_thorough: 8_000_000,
                 max_shrink_iters: 20_000,
                 strategy,
                 run: run_hook,
             }) as Box<dyn DynSub>,
             Box::new(Sub {
                 name: "public",
-                cases_quick: 400,
-                cases_thorough: 12_000,
+                cases_quick: 2_000,
+                cases_thorough: 120_000,
                 max_shrink_iters: 600,
                 strategy,
                 run: run_public,
